@@ -11,7 +11,7 @@ package socks5
 //@ func (s *Server) handleAuthentication(conn net.Conn) (err error)
 //@   property C11 C10
 //@   mode int
-//@   requires s != nil && s.config != nil && conn != nil
+//@   requires s != nil && s.config != nil && conn != nil && typeof(conn) != typeid(*bytes.Reader)
 //@   requires ghost(rd) == 0
 //@   ensures err == nil && len(s.config.AuthOpts.IngressCredentials) > 0 ==> exists(k, 0, len(s.config.AuthOpts.IngressCredentials), strIsStream(s.config.AuthOpts.IngressCredentials[k].User, 4 + mathint(instream(1)), mathint(instream(3 + mathint(instream(1))))) && strIsStream(s.config.AuthOpts.IngressCredentials[k].Password, 5 + mathint(instream(1)) + mathint(instream(3 + mathint(instream(1)))), mathint(instream(4 + mathint(instream(1)) + mathint(instream(3 + mathint(instream(1))))))))
 //@   ensures err == nil && len(s.config.AuthOpts.IngressCredentials) > 0 ==> ghost(rd) == 5 + mathint(instream(1)) + mathint(instream(3 + mathint(instream(1)))) + mathint(instream(4 + mathint(instream(1)) + mathint(instream(3 + mathint(instream(1))))))
@@ -48,3 +48,18 @@ package socks5
 //@     modifies nothing
 //@     invariant -1 <= rangeindex__2 && rangeindex__2 < len(wellKnownIPv6LocalDomainNames)
 //@     invariant isWellKnownIPv6LocalDomainName <==> exists(j, 0, rangeindex__2 + 1, wellKnownIPv6LocalDomainNames[j] == domainName)
+//@
+//@ // SOCKS5 UDP request header (RFC 1928 section 7): RSV(2)=0 | FRAG(1)=0 | ATYP | DST.ADDR | DST.PORT | DATA.
+//@ // The header is returned as an owned copy (it is cached per destination by the
+//@ // relay loop while the packet buffer is reused), the payload is the rest of pkt.
+//@ func parseSocks5UDPDatagram(pkt []byte) (d *socks5UDPDatagram, err error)
+//@   property C18 C10
+//@   mode int
+//@   ensures err == nil ==> d != nil && len(pkt) > 6 && pkt[0] == 0 && pkt[1] == 0 && pkt[2] == 0
+//@   ensures err == nil ==> len(d.Header) + len(d.Payload) == len(pkt)
+//@   ensures err == nil ==> fresh(d.Header) && forall(i, 0, len(d.Header), d.Header[i] == pkt[i])
+//@   ensures err == nil ==> forall(i, 0, len(d.Payload), d.Payload[i] == pkt[len(d.Header) + i])
+//@   ensures err == nil ==> (pkt[3] == 1 && len(d.Header) == 10) || (pkt[3] == 4 && len(d.Header) == 22) || (pkt[3] == 3 && len(d.Header) == 7 + int(pkt[4]))
+//@   ensures err == nil && pkt[3] == 1 ==> len(d.Addr.IP) == 4 && forall(k, 0, 4, d.Addr.IP[k] == pkt[4 + k]) && d.Addr.Port == int(pkt[8]) * 256 + int(pkt[9])
+//@   ensures err == nil && pkt[3] == 4 ==> len(d.Addr.IP) == 16 && forall(k, 0, 16, d.Addr.IP[k] == pkt[4 + k]) && d.Addr.Port == int(pkt[20]) * 256 + int(pkt[21])
+//@   ensures err == nil && pkt[3] == 3 ==> len(d.Addr.FQDN) == int(pkt[4]) && forall(k, 0, len(d.Addr.FQDN), d.Addr.FQDN[k] == pkt[5 + k]) && d.Addr.Port == int(pkt[5 + int(pkt[4])]) * 256 + int(pkt[6 + int(pkt[4])])
